@@ -217,7 +217,13 @@ def basicVersion? (s : List Char) : Option (String × Bool) :=
     | r => if atEnd r then some (String.ofList (s.take verLen), false) else none
   let viaVersion : Option (String × Bool) :=
     match Version.parseBody "" (s.map lowerChar) with
-    | some (_, rest) => finish (s.length - rest.length) rest
+    | some (_, rest) =>
+      let n := s.length - rest.length
+      match finish n rest with
+      | some x => some x
+      | none =>
+        -- regex backtracking: a phase word with an implicit number has swallowed the `.` of `.*`
+        if n > 0 && (s.take n).getLast? == some '.' then finish (n - 1) ('.' :: rest) else none
     | none => none
   match viaVersion with
   | some x => some x
